@@ -1,2 +1,3 @@
 //! type-checks (cargo check) everything the real generator emitted for the current C14 document set
+#![allow(warnings, clippy::all)]
 include!(concat!(env!("GEN_CHECK_DIR"), "/lib.rs"));
